@@ -360,6 +360,13 @@ struct Driver {
     hist_samples: Vec<(Spec, Record, Vec<usize>)>,
     /// worker history of the first unknown violation's last witness
     violation_history: Vec<Spec>,
+    /// for every run (by spec idx): idx of the run the same worker PROCESS
+    /// executed right before it (u64::MAX: first run of its process)
+    prev_idx: Vec<u64>,
+    /// the specs of the census and of the exploration stage (idx = position,
+    /// exploration continuing where the census ends)
+    census_specs: Vec<Spec>,
+    explore_specs: Vec<Spec>,
     hist_checked: usize,
     hist_output_differences: usize,
 }
@@ -396,9 +403,11 @@ impl Driver {
             let builder_hangs = &mut bh;
             let hist_samples = &mut self.hist_samples;
             let violation_history = &mut self.violation_history;
+            let prev_idx = &mut self.prev_idx;
             let seed = self.args.seed;
             let (sample_cap, sample_mod): (usize, u64) = if self.args.tier == Tier::Thorough { (1500, 600) } else { (240, 200) };
             run_specs(specs, &cfg, move |pos, rec, hist| {
+                note_prev(prev_idx, specs, pos, hist);
                 let new = agg.absorb(&specs[pos], &rec, judge);
                 let mut go_on = true;
                 for vi in new {
@@ -482,6 +491,9 @@ pub fn check_cmd(args: CheckArgs) -> i32 {
         in_census: false,
         hist_samples: vec![],
         violation_history: vec![],
+        prev_idx: vec![],
+        census_specs: vec![],
+        explore_specs: vec![],
         hist_checked: 0,
         hist_output_differences: 0,
     };
@@ -526,6 +538,7 @@ pub fn check_cmd(args: CheckArgs) -> i32 {
     census_entries.extend(corpus.finite.iter());
     let census_specs = planner.census(&census_entries);
     d.plan_size += census_specs.len();
+    d.census_specs = census_specs.clone();
     // the census is a judged control configuration for C17 (fixed keys, no
     // perturbation); for C16 it only classifies inputs
     let judge_census = prop == "C17";
@@ -598,6 +611,7 @@ pub fn check_cmd(args: CheckArgs) -> i32 {
         if d.unknown.is_empty() && !d.hit_deadline {
             history_oracle(&mut d, &specs);
         }
+        d.explore_specs = specs;
     }
 
     // 5. verdict
@@ -634,6 +648,36 @@ pub fn check_cmd(args: CheckArgs) -> i32 {
 }
 
 /// Census for C17: judged (control configuration) and also collected.
+fn note_prev(prev_idx: &mut Vec<u64>, specs: &[Spec], pos: usize, hist: &[usize]) {
+    let i = specs[pos].idx as usize;
+    if prev_idx.len() <= i {
+        prev_idx.resize(i + 1, u64::MAX);
+    }
+    prev_idx[i] = hist.last().map(|&p| specs[p].idx).unwrap_or(u64::MAX);
+}
+
+/// The runs the worker process of run `idx` had executed before it, in order
+/// (census or exploration stage; each stage has its own worker processes).
+fn process_history_of(d: &Driver, idx: u64) -> Vec<Spec> {
+    let mut chain: Vec<u64> = vec![];
+    let mut cur = idx;
+    while let Some(&p) = d.prev_idx.get(cur as usize) {
+        if p == u64::MAX || chain.len() > 2_000_000 {
+            break;
+        }
+        chain.push(p);
+        cur = p;
+    }
+    chain.reverse();
+    let nc = d.census_specs.len() as u64;
+    chain
+        .iter()
+        .filter_map(|&i| if i < nc { d.census_specs.get(i as usize) } else { d.explore_specs.get((i - nc) as usize) })
+        .filter(|s| true && !s.prop.is_empty())
+        .cloned()
+        .collect()
+}
+
 fn run_census_collect(d: &mut Driver, specs: &[Spec]) -> Vec<Option<Record>> {
     let cfg = d.pool_cfg();
     let mut kept: Vec<Option<Record>> = vec![None; specs.len()];
@@ -645,7 +689,9 @@ fn run_census_collect(d: &mut Driver, specs: &[Spec]) -> Vec<Option<Record>> {
         let known_hits = &mut d.known_hits;
         let unknown = &mut d.unknown;
         let kept_ref = &mut kept;
-        run_specs(specs, &cfg, move |pos, rec, _hist| {
+        let prev_idx = &mut d.prev_idx;
+        run_specs(specs, &cfg, move |pos, rec, hist| {
+            note_prev(prev_idx, specs, pos, hist);
             let new = agg.absorb(&specs[pos], &rec, true);
             let mut go_on = true;
             for vi in new {
@@ -734,19 +780,28 @@ fn minimise_and_write(d: &Driver, v: &Violation) -> PathBuf {
         specs = original.clone();
         let r = execute_specs(&specs, &prop, thorough);
         recs = r.1;
-        if !r.0.iter().any(|x| x.class == class) && !d.violation_history.is_empty() {
-            // not reproducible from the specs alone: does the last witness behave
-            // differently after the history of its worker process?
-            let w = specs.last().unwrap().clone();
-            if let (Some(fresh), Some(observed)) = (recs.last().cloned(), v.records.last().cloned()) {
-                let mut seq = d.violation_history.clone();
+        if !r.0.iter().any(|x| x.class == class) && v.records.len() == specs.len() && recs.len() == specs.len() {
+            // not reproducible from the specs alone: which witness behaves
+            // differently in a fresh process than it did when it was observed?
+            // Re-run it after the history of the worker process it ran in
+            // (census or exploration stage), last witness first.
+            for k in (0..specs.len()).rev() {
+                let (w, fresh, observed) = (specs[k].clone(), recs[k].clone(), v.records[k].clone());
+                if property_level_difference(&observed, &fresh).is_none() {
+                    continue;
+                }
+                let full = process_history_of(d, w.idx);
+                if full.is_empty() {
+                    continue;
+                }
+                let mut seq = full.clone();
                 seq.push(w.clone());
                 let after = execute_sequence(&seq, thorough).pop().flatten();
                 if let Some(after) = after {
                     if property_level_difference(&after, &fresh).is_some() && property_level_difference(&after, &observed).is_none() {
                         let diff = property_level_difference(&after, &fresh).unwrap();
                         class = format!("history:{}", diff);
-                        history = shrink_history(d.violation_history.clone(), &w, &fresh, thorough, Instant::now() + Duration::from_secs(if thorough { 600 } else { 150 }));
+                        history = shrink_history(full, &w, &fresh, thorough, Instant::now() + Duration::from_secs(if thorough { 600 } else { 150 }));
                         let hv = Violation { class: class.clone(), detail: format!("{} - and the violating run is only reproducible after the history of its worker process: the result depends on call history", v.detail), group: v.group.clone(), witnesses: vec![w.clone()], records: vec![observed] };
                         return write_replay(d, &hv, &class, &[w], &history, &original, None, shr.evaluations);
                     }
